@@ -321,6 +321,43 @@ Section Step.
   Lemma snoc_nonnil {A} (l : list A) a : l ++ [a] <> [].
   Proof. destruct l; discriminate. Qed.
 
+  Lemma subtree_msgs al : forall l0 T0 sa,
+    subtree_at T0 al = Some sa -> forall m', In m' (ltree (l0 ++ al) sa) -> In m' (ltree l0 T0).
+  Proof.
+    induction al as [|p al IH]; intros l0 T0 sa ES m' Hm'.
+    - cbn in ES. injection ES as ->. now rewrite app_nil_r in Hm'.
+    - cbn [subtree_at] in ES. destruct T0 as [|ty0 st0 ch0]; [discriminate|].
+      destruct (child_from 2 ch0 p) as [c|] eqn:EC; [|discriminate].
+      rewrite lin_tree_act. right. apply lin_list_In. right. exists p, c. split; [exact EC|].
+      apply (IH (l0 ++ [p]) c sa ES). now rewrite <- app_assoc.
+  Qed.
+
+  Lemma spec_ext_msgs R R' :
+    (forall m, In m (ltree [] T) -> R (pm_level m) = R' (pm_level m)) ->
+    forall x, nodes_spec R x = nodes_spec R' x /\ compl_spec R x = compl_spec R' x.
+  Proof.
+    intros H x. unfold nodes_spec, compl_spec. destruct (subtree_at T x) as [s|] eqn:ES; [|auto].
+    assert (Hs : forall m, In m (ltree x s) -> R (pm_level m) = R' (pm_level m)).
+    { intros m Hm. apply H. apply (subtree_msgs x [] T s ES). exact Hm. }
+    rewrite (present_ext_msgs idf u R R'), (node_of_ext_msgs idf u R R'), (full_ext_msgs idf u R R') by exact Hs.
+    auto.
+  Qed.
+
+  Lemma Inv_ext_msgs R R' t :
+    (forall m, In m (ltree [] T) -> R (pm_level m) = R' (pm_level m)) -> Inv R t -> Inv R' t.
+  Proof.
+    intros E [H1 H2 H3 H4]. pose proof (spec_ext_msgs R R' E) as F.
+    constructor; try assumption.
+    - intros x. rewrite H2. apply F.
+    - intros x. rewrite H4. apply F.
+  Qed.
+
+  Lemma Inv_empty_msgs R : pres R [] T = false -> Inv R empty_task.
+  Proof.
+    intros H. apply (Inv_ext_msgs (fun _ => false)); [|now apply Inv_empty].
+    intros m Hm. symmetry. rewrite present_false in H. now apply H.
+  Qed.
+
   (* add_step *)
   Theorem task_add_step R t m :
     Inv R t -> In m (ltree [] T) -> R (pm_level m) = false ->
@@ -331,13 +368,7 @@ Section Step.
     { rewrite E in T_act. discriminate. }
     cbn [app] in Hk. set (sa := TAct ty st ch) in *.
     pose proof HI as [I1 I2 I3 I4].
-    assert (Hsub : forall m', In m' (ltree al sa) -> In m' (ltree [] T)).
-    { clear - ES. revert T ES. generalize (@nil positive) as l0. induction al as [|p al IH]; intros l0 T0 ES m' Hm'.
-      - cbn in ES. injection ES as ->. now rewrite app_nil_r in Hm'.
-      - cbn [subtree_at] in ES. destruct T0 as [|ty0 st0 ch0]; [discriminate|].
-        destruct (child_from 2 ch0 p) as [c|] eqn:EC; [|discriminate].
-        rewrite lin_tree_act. right. apply lin_list_In. right. exists p, c. split; [exact EC|].
-        apply (IH (l0 ++ [p]) c ES). now rewrite <- app_assoc. }
+    assert (Hsub : forall m', In m' (ltree al sa) -> In m' (ltree [] T)) by (intros m'; apply (subtree_msgs al [] T sa ES)).
     destruct Hk as [Hk|[Hk|(j & ty' & Hj & Hk)]].
     - (* start message *)
       assert (Hl : pm_level m = al ++ [1%positive]) by now rewrite Hk.
@@ -361,7 +392,7 @@ Section Step.
             pose proof (endpos_nat ch 2). rewrite E in H. cbn in H. lia. }
         rewrite <- Hk. f_equal. apply children_of_frame. intros p c Hp rest. unfold addl.
         replace (level_eqb ((al ++ [p]) ++ rest) (al ++ [1%positive])) with false; [reflexivity|].
-        symmetry. rewrite <- app_assoc, level_eqb_app. cbn.
+        symmetry. rewrite <- app_assoc, level_eqb_app. cbn [app level_eqb].
         apply child_from_range in Hp as [Hp _]. destruct (Pos.eqb_spec p 1); [lia|reflexivity].
     - (* end message *)
       assert (Hl : pm_level m = al ++ [endpos 2 ch]) by now rewrite Hk.
@@ -397,7 +428,7 @@ Section Step.
           2:{ intros E. apply app_inj_tail in E as [_ E]. lia. }
           rewrite <- Hk. f_equal. apply children_of_frame. intros p c Hp rest. unfold addl.
           replace (level_eqb ((al ++ [p]) ++ rest) (al ++ [endpos 2 ch])) with false; [reflexivity|].
-          symmetry. rewrite <- app_assoc, level_eqb_app. cbn.
+          symmetry. rewrite <- app_assoc, level_eqb_app. cbn [app level_eqb].
           apply child_from_range in Hp as [_ Hp]. destruct (Pos.eqb_spec p (endpos 2 ch)); [lia|reflexivity]. }
         destruct ST as [ST|ST]; rewrite ST, EN; exact Ht'.
     - (* message child *)
@@ -431,7 +462,7 @@ Section Step.
         * rewrite present_msg. apply addl_same.
         * intros p' c' Hp' Np rest. unfold addl.
           replace (level_eqb ((al ++ [p']) ++ rest) (al ++ [j])) with false; [reflexivity|].
-          symmetry. rewrite <- app_assoc, level_eqb_app. cbn.
+          symmetry. rewrite <- app_assoc, level_eqb_app. cbn [app level_eqb].
           destruct (Pos.eqb_spec p' j); [congruence|reflexivity].
   Qed.
 
